@@ -551,20 +551,30 @@ def unit_tables(unit):
             if nrows and wrong:
                 expect_reject("Vector([...]).unequal", lambda t: Vector([Vector(list(base[0])), Vector(list(wrong))]))
         row = [val(c, 70) for c in range(ncols)]
-        expect_table("lshift.row", lambda t: t << list(row), [b + [x] for b, x in zip(base, row)])
-        expect_table("lshift.row-tuple", lambda t: t << tuple(row), [b + [x] for b, x in zip(base, row)])
-        if nrows:
-            expect_table("lshift.row-of-a-table", lambda t: t << mk()[0], [b + [b[0]] for b in base])
-            expect_table("lshift.row.twice", lambda t: (t << list(row)) << list(row), [b + [x, x] for b, x in zip(base, row)])
+        if kind != "tuple":       # a row given as a plain sequence whose cells are themselves sequences is ambiguous (not judged)
+            expect_table("lshift.row", lambda t: t << list(row), [b + [x] for b, x in zip(base, row)])
+            expect_table("lshift.row-tuple", lambda t: t << tuple(row), [b + [x] for b, x in zip(base, row)])
+            if nrows:
+                expect_table("lshift.row-of-a-table", lambda t: t << mk()[0], [b + [b[0]] for b in base])
+                expect_table("lshift.row.twice", lambda t: (t << list(row)) << list(row), [b + [x, x] for b, x in zip(base, row)])
         expect_table("lshift.table", lambda t: t << mk(), [b + b for b in base])
+        if nrows:
+            # a TABLE of exactly one row is appended column by column, whatever its cells are
+            expect_table("lshift.table-of-one-row", lambda t: t << mk()[0:1], [b + b[0:1] for b in base])
+            expect_table("lshift.table-of-one-row-last", lambda t: t << mk()[nrows - 1:nrows], [b + b[nrows - 1:] for b in base])
         for d in (1, -1):
             if ncols + d < 1:
                 continue
             expect_reject("lshift.row.wrong-width", lambda t: t << [val(0, 70)] * (ncols + d))
         if nrows:
             expect_table("T.T", lambda t: t.T.T, base)
-        for sl in (slice(0, 1), slice(1, None), slice(0, 0), slice(None, None, -1), slice(None, None, 2)):
+        for sl in (slice(0, 1), slice(1, None), slice(0, 0), slice(None, None, -1), slice(None, None, 2), slice(nrows - 1, None, -1), slice(None, None, -2)):
             expect_table("row-slice", lambda t: t[sl], [b[sl] for b in base])
+            # the same rows through a 2-D key: with a column slice, with the names, with a reversed column slice
+            if nrows and len(base[0][sl]):
+                expect_table("row-slice.2d-colslice", lambda t: t[sl, 0:ncols], [b[sl] for b in base])
+                expect_table("row-slice.2d-names", lambda t: t[sl, tuple(f"c{c}" for c in range(ncols))] if ncols > 1 else t[sl, ("c0",)], [b[sl] for b in base])
+                expect_table("row-slice.2d-colslice-reversed", lambda t: t[sl, ::-1], [b[sl] for b in base][::-1])
         for m in itertools.product([True, False], repeat=nrows):
             if nrows:
                 expect_table("row-mask", lambda t: t[list(m)], [[x for x, f in zip(b, m) if f] for b in base])
@@ -581,10 +591,10 @@ def check(ctx):
     depth = ctx.pick(3, 4)
     drv = Driver(pool=ctx.pick(4, 4))
     explorer.bfs(drv, depth, agg)
-    units = [("tab", r, c, k) for r in range(0, 4) for c in range(0, 4) for k in ("int", "str", "bytes", "mixed", "float?", "date")]
+    units = [("tab", r, c, k) for r in range(0, 4) for c in range(0, 4) for k in ("int", "str", "bytes", "mixed", "float?", "date", "tuple")]
     for p in core.pmap(unit_tables, units):
         agg.merge(p)
-    agg.notes["bound"] = f"H: depth<={depth} from 4 seed worlds, pool<=4; E: tables 0..3 x 0..3 x 6 cell kinds (int, str incl. empty, bytes of 0/1/several bytes, mixed, nullable float, date)"
+    agg.notes["bound"] = f"H: depth<={depth} from 4 seed worlds, pool<=4; E: tables 0..3 x 0..3 x 7 cell kinds (int, str incl. empty, bytes of 0/1/several bytes, mixed, nullable float, date, tuple)"
     return agg
 
 
